@@ -404,7 +404,7 @@ func vfC04Run(t *testing.T, dir string, c *vfC04Case) (violation string, stats m
 			}
 			line := fmt.Sprintf("t=%s %s cd=%v wire=%v -> rcode=%d", now, name, st.CD, st.Wire, r.Msg.Rcode)
 			cacheServed := len(fetches) == before
-			if cacheServed && strings.EqualFold(name, "aliasnx.example.org.") && r.Msg.Rcode == dns.RcodeNameError {
+			if strings.EqualFold(name, "aliasnx.example.org.") && r.Msg.Rcode == dns.RcodeNameError {
 				// the alias entry now serving was written back by the latest fetch of the alias; if the denial it was
 				// completed with came from cache then (no fetch of the target in that step), the alias entry inherited that
 				// denial's lifetime and cannot still be served once the denial has expired
@@ -412,7 +412,7 @@ func vfC04Run(t *testing.T, dir string, c *vfC04Case) (violation string, stats m
 				// target (so each stored alias entry was completed with a cached denial and inherited its remaining
 				// lifetime), and every denial of the target ever fetched has run out: nothing is left to serve this from
 				aliasOnly, any := true, false
-				for _, f := range fetches {
+				for _, f := range fetches[:before] {
 					if f.Key != vfUpKey("aliasnx.example.org.", dns.TypeA) || now > f.At+300*time.Second {
 						continue
 					}
@@ -424,14 +424,17 @@ func vfC04Run(t *testing.T, dir string, c *vfC04Case) (violation string, stats m
 					}
 				}
 				var last *vfC04Fetch
-				for _, g := range fetches {
+				for _, g := range fetches[:before] {
 					if g.Key == vfUpKey("barenx.example.org.", dns.TypeA) {
 						if last == nil || g.At+g.Life > last.At+last.Life {
 							last = g
 						}
 					}
 				}
-				if any && aliasOnly && last != nil {
+				if !cacheServed && any && aliasOnly && last != nil && now > last.At+last.Life+time.Second {
+					stats["alias-over-cached-denial"]++ // the stored alias had nothing live to stand on, and was not used
+				}
+				if cacheServed && any && aliasOnly && last != nil {
 					stats["alias-over-cached-denial"]++
 					if now > last.At+last.Life+time.Second {
 						fail("step %d at t=%s: %s is answered NXDOMAIN from cache, by an alias entry that was completed with a cached denial of its target; the last such denial (fetch #%d at t=%s, lifetime %s) ran out %s ago\nhistory:\n  %s", si, now, name, last.Idx, last.At, last.Life, now-last.At-last.Life, strings.Join(append(sample, line), "\n  "))
@@ -617,7 +620,7 @@ func vfC04GenCase(rt *rapid.T) *vfC04Case {
 		c.Steps = append(c.Steps, vfC04Step{Kind: "release"}, ask(), vfC04Step{Kind: "sleep", Sleep: 2 * time.Second}, ask())
 		return c
 	}
-	if rapid.IntRange(0, 7).Draw(rt, "aliasdenial") == 0 {
+	if rapid.IntRange(0, 5).Draw(rt, "aliasdenial") == 0 {
 		// an alias fetched while the denial of its target is already cached, looked at again after that denial ran out
 		ask := func(qi int) vfC04Step {
 			return vfC04Step{Kind: "query", Q: qi, EDNS: rapid.Bool().Draw(rt, "ad.edns"), DO: rapid.Bool().Draw(rt, "ad.do"), Wire: rapid.Bool().Draw(rt, "ad.wire"), Proto: "udp", Client: 0}
